@@ -10,6 +10,9 @@ InitAB == [d \in Delegator |-> [v \in Validator |->
 InitABC == [d \in Delegator |-> [v \in Validator |->
              CASE d = "a" /\ v = "v1" -> 2 [] d = "b" /\ v = "v1" -> 1 [] d = "b" /\ v = "v2" -> 1 [] OTHER -> 0]]
 
+FdenNone == [v \in Validator |-> 0]
+FdenV1   == [v \in Validator |-> IF v = "v1" THEN 1 ELSE 0]   \* v1 slashed by 10% while the world is built
+
 CapOf(del, und, red, wd, app, xfer, xfrom, tick, slash) ==
   [k \in Kinds |-> CASE k = "del" -> del [] k = "und" -> und [] k = "red" -> red [] k = "wd" -> wd
                      [] k = "app" -> app [] k = "xfer" -> xfer [] k = "xfrom" -> xfrom
@@ -19,6 +22,9 @@ CapQuick    == CapOf(1, 1, 1, 1, 1, 2, 1, 1, 1)
 \* quick tier: (A) stake operations, transfers, rewards, slash; (B) allowances and transferFrom
 CapQuickA   == CapOf(1, 1, 1, 1, 0, 2, 0, 1, 1)
 CapQuickB   == CapOf(0, 0, 0, 1, 1, 1, 2, 1, 0)
+\* family "tenth" (fractional shares): delegate after the 10% slash, transfer whole shares
+CapFracQ    == CapOf(2, 0, 0, 1, 0, 2, 0, 1, 0)
+CapFracT    == CapOf(2, 0, 0, 1, 1, 2, 1, 1, 0)
 \* model checking only (no replay)
 CapMC       == CapOf(1, 1, 1, 1, 1, 2, 1, 2, 1)
 CapThoroughA == CapOf(1, 1, 1, 1, 0, 2, 0, 2, 1)
